@@ -366,6 +366,19 @@ func (s *IndexedState) add(ctx *Context, id string, x Map) (string, error) {
 		if err != nil {
 			Log(ERROR, ctx, "IndexedState.add", "state", s.Name, "error", err,
 				"when", "addHook")
+			// Nothing gets replaced, so the rule index goes back
+			// to what it was: the refused rule leaves it, and
+			// the previous rule (which stays stored) returns.
+			if rule != nil {
+				if _, scheduled := rule["schedule"]; !scheduled {
+					s.unindexRule(ctx, id, rule)
+				}
+			}
+			if previousRule != nil {
+				if _, scheduled := previousRule["schedule"]; !scheduled {
+					s.indexRule(ctx, id, previousRule)
+				}
+			}
 			return "", err
 		}
 	}
